@@ -772,3 +772,79 @@ func ruleOptionsWiredByName(c *Ctx, id string) {
 		c.check(id+":bbolt.Open:options-copied", open, open.Pos(), "NoSync, NoGrowSync, NoFreelistSync, FreelistType, MmapFlags, Mlock, MaxSize and PreLoadFreelist are copied from the options into the DB", len(missing) == 0, "not copied any more: "+strings.Join(missing, ", "))
 	})
 }
+
+// ---------------------------------------------------------------------------------------------
+// C05.R7  absolute-positioning-restarts-from-the-root
+//
+// First, Last and Seek position the cursor "from scratch": they clear the stack and descend from the bucket's
+// CURRENT root (page or materialised node). A shortcut that re-uses the stack of an earlier positioning — "the key
+// lies inside the leaf we are already on" — reads a page reference that a Put/Delete/CreateBucket of the same
+// transaction may have replaced by an in-memory node: Seek then skips inserted keys and returns deleted ones (seed
+// C05d). Every return of these functions must therefore be preceded, on every path, by the restart.
+func ruleAbsolutePositioningRestarts(c *Ctx, id string) {
+	c.rule(id, "absolute-positioning-restarts-from-the-root", 5, func() {
+		stackF := c.P.lookupField(rootPkg, "Cursor", "stack")
+		if stackF == nil {
+			panic(anchorErr{"Cursor.stack"})
+		}
+		mustPass := func(fn *ssa.Function, isEvent func(ssa.Instruction) bool) string {
+			r := reach(nil, []*ssa.BasicBlock{fn.Blocks[0]}, isEvent, nil)
+			for _, ret := range returnsOf(fn) {
+				if r[ret] {
+					return "the return at " + c.P.Position(ret.Pos()) + " is reachable without it"
+				}
+			}
+			return ""
+		}
+		// wrappers: the exported function reaches its results only through the internal one
+		for _, w := range []struct{ outer, inner string }{{"bbolt.(*Cursor).First", "bbolt.(*Cursor).first"}, {"bbolt.(*Cursor).Seek", "bbolt.(*Cursor).seek"}} {
+			fn := c.fn(w.outer)
+			bad := mustPass(fn, func(in ssa.Instruction) bool { return isCallTo(in, w.inner) })
+			c.check(id+":"+w.outer+":via-"+w.inner, fn, fn.Pos(), "every return is preceded by "+w.inner+"() (no shortcut that keeps the previous position's stack)", bad == "", bad)
+		}
+		// restarts: the stack is cleared and the descent starts at RootPage()
+		for _, name := range []string{"bbolt.(*Cursor).first", "bbolt.(*Cursor).Last", "bbolt.(*Cursor).seek"} {
+			fn := c.fn(name)
+			var resets []ssa.Instruction
+			for _, st := range storesToField([]*ssa.Function{fn}, stackF) {
+				if sl, ok := st.Val.(*ssa.Slice); ok && sl.High != nil {
+					if k, isC := constInt(sl.High); isC && k == 0 {
+						resets = append(resets, st.Instr)
+					}
+				}
+			}
+			isRestart := func(in ssa.Instruction) bool {
+				call, ok := in.(*ssa.Call)
+				if !ok {
+					return false
+				}
+				n := calleeOf(call).Name()
+				if n != "bbolt.(*Bucket).pageNode" && n != "bbolt.(*Cursor).search" {
+					return false
+				}
+				fromRoot := false
+				for _, a := range call.Call.Args {
+					for _, l := range provenance(a, provOpts{ThroughCall: throughAll}) {
+						if l.Kind == "call" && l.Name == "common.(*InBucket).RootPage" {
+							fromRoot = true
+						}
+					}
+				}
+				if !fromRoot {
+					return false
+				}
+				for _, rs := range resets {
+					if dominates(rs, in) {
+						return true
+					}
+				}
+				return false
+			}
+			bad := mustPass(fn, isRestart)
+			if len(resets) == 0 {
+				bad = "the stack is never cleared"
+			}
+			c.check(id+":"+name+":restart", fn, fn.Pos(), "every return is preceded by clearing the stack and descending from the bucket's current RootPage()", bad == "", bad)
+		}
+	})
+}
